@@ -36,10 +36,13 @@ FEmpty(m) == 0
 FComb(m, a, b) == IF m = "add" THEN (a + b) % 3 ELSE IF a > b THEN a ELSE b
 
 \* the Cons-by-Cons composition (what eq.HCons / ord.HCons / hash.HCons / monoid.HCons compute), on suffixes starting at i
-RECURSIVE CEq(_, _, _, _), CLess(_, _, _, _, _), CHash(_, _, _), CComb(_, _, _, _)
-CEq(ks, a, b, i) == IF i > Len(ks) THEN TRUE ELSE FEq(ks[i], a[i], b[i]) /\ CEq(ks, a, b, i + 1)
-CLess(ks, os, a, b, i) == IF i > Len(ks) THEN FALSE
-                          ELSE FLess(ks[i], os[i], a[i], b[i]) \/ (FEq(ks[i], a[i], b[i]) /\ CLess(ks, os, a, b, i + 1))
+\* (on vectors of field verdicts - feq[i]: field i equal, fless[i]: field i less - so that the trace specification can apply the
+\* same composition to the verdicts of the real field instances)
+RECURSIVE CEqV(_, _), CLessV(_, _, _), CHash(_, _, _), CComb(_, _, _, _)
+CEqV(feq, i) == IF i > Len(feq) THEN TRUE ELSE feq[i] /\ CEqV(feq, i + 1)
+CLessV(feq, fless, i) == IF i > Len(feq) THEN FALSE ELSE fless[i] \/ (feq[i] /\ CLessV(feq, fless, i + 1))
+CEq(ks, a, b, i) == CEqV([j \in DOMAIN ks |-> FEq(ks[j], a[j], b[j])], i)
+CLess(ks, os, a, b, i) == CLessV([j \in DOMAIN ks |-> FEq(ks[j], a[j], b[j])], [j \in DOMAIN ks |-> FLess(ks[j], os[j], a[j], b[j])], i)
 CHash(ks, a, i) == IF i > Len(ks) THEN 17 ELSE (31 * CHash(ks, a, i + 1) + FHash(ks[i], a[i])) % 1009
 CComb(ms, a, b, i) == IF i > Len(ms) THEN <<>> ELSE <<FComb(ms[i], a[i], b[i])>> \o CComb(ms, a, b, i + 1)
 
